@@ -264,9 +264,53 @@ func limitedCrew(cfg fw.Config, rec *fw.Rec) {
 	}
 }
 
+// handles: what a script does with an object after emitting it - the one it passed in, the
+// one _.out gave back, one that lives in its bindings or props - cannot change the message
+// that was emitted.
+func handles(cfg fw.Config, rec *fw.Rec) {
+	cases := []struct{ Name, Src, Want string }{
+		{"mutate-the-returned-handle", `var s = _.out({id: "X", inner: {v: 1}}); if (s) { s.id = "changed"; if (s.inner) { s.inner.v = 2; } } return _.bindings;`, `[{"id":"X","inner":{"v":1}}]`},
+		{"mutate-the-argument", `var m = {id: "X", inner: {v: 1}}; _.out(m); m.id = "changed"; m.inner.v = 2; return _.bindings;`, `[{"id":"X","inner":{"v":1}}]`},
+		{"emit-a-binding-then-mutate-it", `var bs = _.bindings; _.out(bs.obj); bs.obj.id = "changed"; bs.obj.inner.v = 2; return bs;`, `[{"id":"B","inner":{"v":1}}]`},
+		{"emit-mutate-emit", `var bs = _.bindings; _.out(bs.obj); bs.obj.id = "second"; _.out(bs.obj); return bs;`, `[{"id":"B","inner":{"v":1}},{"id":"second","inner":{"v":1}}]`},
+		{"emit-nested-binding-then-delete", `var bs = _.bindings; _.out(bs.obj.inner); delete bs.obj.inner.v; return bs;`, `[{"v":1}]`},
+		{"emit-props-then-mutate", `_.out(_.props.cfg); _.props.cfg.id = "changed"; return _.bindings;`, `[{"id":"P"}]`},
+		{"return-what-out-returned", `return _.out({id: "X"});`, `[{"id":"X"}]`},
+		{"emit-the-bindings-themselves", `var bs = _.bindings; _.out(bs); bs.later = true; return bs;`, `[{"keep!":"perm","obj":{"id":"B","inner":{"v":1}}}]`},
+	}
+	for _, c := range cases {
+		spec := &core.Spec{Name: "handles", Nodes: map[string]*core.Node{
+			"start": {ActionSource: &core.ActionSource{Interpreter: "ecmascript", Source: c.Src}, Branches: &core.Branches{Type: "bindings", Branches: []*core.Branch{{Target: "done"}}}},
+			"done":  {},
+		}}
+		if err := spec.Compile(context.Background(), nil, true); err != nil {
+			rec.Inconclusive("handles spec: " + err.Error())
+			return
+		}
+		st := &core.State{NodeName: "start", Bs: match.Bindings{"obj": map[string]interface{}{"id": "B", "inner": map[string]interface{}{"v": 1.0}}, "keep!": "perm"}}
+		var w *core.Walked
+		var err error
+		if rec.Guard("C08:handles", c.Name, func() {
+			w, err = spec.Walk(context.Background(), st, nil, &core.Control{Limit: 5}, core.StepProps{"cfg": map[string]interface{}{"id": "P"}})
+		}) {
+			return
+		}
+		rec.Eval(1)
+		var got []interface{}
+		if w != nil {
+			w.DoEmitted(func(x interface{}) error { got = append(got, x); return nil })
+		}
+		if err != nil || fw.Canon(got) != c.Want {
+			rec.Violation("C08:emitted-message-changed-after-emission", fmt.Sprintf("script %q: the walk reports %s (err %v); the messages at the moment they were emitted were %s", c.Name, fw.Canon(got), err, c.Want), c.Name)
+			continue
+		}
+		rec.Bucket("emitted_messages_immune_to_later_changes")
+	}
+}
+
 func Run(cfg fw.Config, rec *fw.Rec) {
 	rec.Rule = "three-node action chains start->n1->n2->done; each action is 'emit k unique ids, mutate, fail by f [, emit again]' for k in 0..4 and f in {none, throw, infinite loop under a deadline, return number/string/array/function/NaN/bool, _.out(unserialisable), _.out(NaN)}; branches optionally guarded by guards that emit and then accept / reject / fail, also 2-7 rejecting emitting guards or 5-12 non-matching branches before the branch that is followed; 3 error settings; observed through Stride.Emitted, Walked.DoEmitted and sio.Crew Result.Emitted (one machine, and two machines with different emissions processing one message: one batch per machine; and a machine on a ring of emitting action nodes under crew step limits 1-8, so that walks are cut short and later messages find it resting at an action node); emitted messages carry payload keys that mean something to a host or a service machine (emit, update, makeTimer) but are addressed to nobody; the observed id sequence must equal the ids of the reference's successfully completed actions in execution order; non-trivial = chain in which some action emitted and some action or guard failed or rejected; distinct by chain description"
-	rec.Required = []string{"walk_checked", "crew_checked", "crew_two_machines_checked", "crew_walks_cut_short_by_the_limit_checked", "failure_after_emit", "failure_timeout", "failure_bad_return", "failure_out_unserialisable", "guard_emitted_nothing", "several_rejecting_guards_before_followed_branch", "many_branches_before_followed_branch", "position_first", "position_middle", "position_last"}
+	rec.Required = []string{"walk_checked", "crew_checked", "crew_two_machines_checked", "crew_walks_cut_short_by_the_limit_checked", "emitted_messages_immune_to_later_changes", "failure_after_emit", "failure_timeout", "failure_bad_return", "failure_out_unserialisable", "guard_emitted_nothing", "several_rejecting_guards_before_followed_branch", "many_branches_before_followed_branch", "position_first", "position_middle", "position_last"}
 	rec.Assume = []string{"a timed-out action is the last one executed in its walk (later actions under an expired context may legitimately either run or time out)"}
 	type job struct {
 		ks      []int
@@ -528,4 +572,5 @@ func Run(cfg fw.Config, rec *fw.Rec) {
 		}
 	})
 	limitedCrew(cfg, rec)
+	handles(cfg, rec)
 }
